@@ -200,7 +200,7 @@ def history(cell):
     import py_ballisticcalc as pb
     U = pb.Unit
     kind, a0, ops = cell
-    st = _station(kind, a0)
+    st = _station(kind, a0) if kind != 'vac' else pb.Vacuum(U.Foot(a0), U.Celsius(5))
     out = []
     n = 0
     hum = st.humidity
@@ -220,6 +220,14 @@ def history(cell):
         else:
             hum = {'h0': 0.0, 'h50': 0.5, 'h100pct': 100}[op]
             st.humidity = hum
+        if kind == 'vac':
+            # a vacuum stays a vacuum whatever is done to the object: exactly zero density at the station and everywhere
+            n += 1
+            vals = [st.get_density_factor_and_mach_for_altitude(q)[0] for q in (a0, a0 + 10.0, a0 + 31.0, a0 + 5000.0, a0 - 500.0)] + [st.density_ratio]
+            if any(v != 0 for v in vals):
+                out.append({'msg': f'Vacuum at {a0} ft after {ops[:k + 1]}: density is no longer exactly zero ({vals})', 'key': None})
+                break
+            continue
         fresh = pb.Atmo(st.altitude, st.pressure, st.temperature, hum)
         n += 1
         if kind == 'std':
@@ -285,6 +293,6 @@ def plan(tier):
     vac = [[a0, float(q)] for a0 in stations for q in range(-1400, 36001, 2000 if tier == 'quick' else 250)]
     import itertools
     depth = 3 if tier == 'quick' else 4
-    hs = [[kind, a0, list(ops)] for kind in ('std', 'hot') for a0 in (0, 5000) for d in range(1, depth + 1) for ops in itertools.product(HOPS, repeat=d)]
+    hs = [[kind, a0, list(ops)] for kind in ('std', 'hot', 'vac') for a0 in (0, 5000) for d in range(1, depth + 1) for ops in itertools.product(HOPS, repeat=d)]
     bl = [[p_, h_] for p_ in (25.0, 29.92, 31.0) for h_ in (0, 0.5, 80)]
     return [('bare_lines', bl), ('isa', alts), ('station', st), ('grid', gr), ('reject', [-1, -0.01, 100.01, 1e9, -1e-9, 101]), ('vacuum', vac), ('history', hs)]
